@@ -330,7 +330,7 @@ def _save_load(save, load, obj, via):
         path = os.path.join(d, "c.json")
         if via == "path":
             must(lambda: save(obj, path), "save to path")
-            json.load(open(path))  # real JSON text
+            must(lambda: json.load(open(path)), "reading the saved file as JSON text")
             return must(lambda: load(path), "load from path")
         with open(path, "w") as f:
             must(lambda: save(obj, f), "save to file object")
